@@ -15,9 +15,11 @@ META = {
         "ALL ints is checked syntactically: `value` occurs only as isinstance() operand, as a direct operand of "
         "comparisons whose other operands fold to integer constants, and inside the error f-string. The accept set "
         "must be exactly {int v : MIN <= v <= MAX} with MIN/MAX = -2^31 / 2^31-1 (integer) and 0 / 2^31-1 (uinteger) "
-        "stated independently here; every exit is `return True` or `raise ValueError(msg)` with msg naming class "
-        "and attribute (also when `attribute` is a plain string); no TypeError path (the range comparison is only "
-        "reached for ints). types.py: every attribute whose metamodel type is directly integer / uinteger carries "
+        "stated independently here; every cell outside it must end in a ValueError whose message names class and "
+        "attribute (also when `attribute` is a plain string), never in TypeError or a silent accept, however the "
+        "function is written (guard clauses, helpers, early returns); the verdict does not depend on earlier calls "
+        "(no memo keyed on equality: 9 == 9.0 == True would share an entry); class-level structure hooks of "
+        "integer-carrying classes give the same verdict as the constructor (entry points agree). types.py: every attribute whose metamodel type is directly integer / uinteger carries "
         "exactly that validator (optional-wrapped when optional) and no other attribute does. Same verdict at "
         "constructor and converter follows from axiom A3 (the generated structure function calls the constructor)."),
     "trusted_base": ["A3", "Python int comparison semantics", "attrs runs field validators in __init__"],
